@@ -606,9 +606,16 @@ func cmdFaults(a Args) {
 			return nil
 		}
 		if d != "" && tag != "INFRA" {
-			// liveness observations must reproduce
-			d2, _ := runFaults(&sc)
-			if d2 == "" {
+			// liveness observations must reproduce: once more in up to three further runs of the same sequence
+			// (a defect that needs a delivery to fall into a short window does not show every time; an observation
+			// that is an artefact of machine load does not show twice in four runs with these deadlines)
+			again := false
+			for k := 0; k < 3 && !again; k++ {
+				if d2, t2 := runFaults(&sc); d2 != "" && t2 != "INFRA" {
+					again = true
+				}
+			}
+			if !again {
 				res.Notes = append(res.Notes, "unreproduced: "+d)
 				res.Counts["unreproduced"]++
 				d = ""
